@@ -2,9 +2,17 @@
 
 Explicit-state search over operator programs executed on the REAL electrical_signal /
 optical_signal objects in lock-step with a plain (S, N) array-pair model (N=None <=> no noise).
+
+Axes (see notes/C01.md, "Hardening pass"):
+  leaves    = layout x length x sample dtype/scale x noise kind
+  operands  = second objects (same length / length 1 / same dtype / fixed narrow dtypes / all-zero noise / the object
+              itself), Python and numpy scalars, 0-d arrays, ndarrays of every sample dtype, lists, tuples, strings
+  programs  = wide-shallow (every op of the full alphabet after every prefix) + narrow-deep (DFS over small alphabets)
 """
 from __future__ import annotations
 import itertools
+import re
+import warnings
 import numpy as np
 
 from mcx.core.kernel import res
@@ -16,7 +24,11 @@ NONTRIVIAL = 'distinct canonical states (class, n_pol, dtype, signal bytes, nois
 EPS = np.finfo(float).eps
 CLS = ('E', 'O1', 'O2')
 LENGTHS = (1, 2, 3, 5, 7, 64)
-DTYPES = ('int', 'float', 'complex')
+LENGTHS_X = (13, 127)                 # prime / non-smooth / 2^7-1; depth <= 1 only
+DTYPES = ('int', 'float', 'complex')  # int64 / float64 / complex128 (the base leaves)
+NARROW_DT = ('bool', 'int8', 'uint8', 'int16', 'int32', 'float16', 'float32', 'complex64')
+SCALED_DT = ('float*1e-12', 'float*1e-6', 'float*1e6', 'complex*1e-9', 'float+dc', 'float=0')
+NOISE_X = ('zero', 'xdt', 'row0')     # all-zero noise / noise of another dtype than the signal / noise in row 0 only (2-pol)
 
 
 def lib():
@@ -40,31 +52,67 @@ class M:
         return self.S if self.N is None else self.S + self.N
 
 
-def ramp(L, dtype, k=0):
+def dt_of(label):
+    """numpy dtype of a leaf dtype label ('int', 'uint8', 'float*1e-12', 'float+dc', 'float=0', 'float~<seed>')"""
+    base = re.split(r'[*+=~]', label)[0]
+    return np.dtype({'int': np.int64, 'float': np.float64, 'complex': np.complex128}.get(base, base))
+
+
+def ramp(L, label, k=0):
+    dt = dt_of(label)
     v = np.arange(1, L + 1) + k
-    if dtype == 'int':
-        return v.astype(int)
-    if dtype == 'float':
-        return v * 0.5 - 1.0
-    return v * (1 + 0.5j)
+    if '~' in label:      # seeded random field: VERIF_SEED selects the CONTENT only
+        rng = np.random.RandomState([int(label.split('~')[1]) % 2**32, L, k])
+        r = rng.uniform(-1, 1, L)
+        return (r + 1j * rng.uniform(-1, 1, L)).astype(dt) if dt.kind == 'c' else r.astype(dt)
+    if dt.kind == 'b':
+        return v % 2 == 1
+    if dt.kind in 'iu':
+        return v.astype(dt)
+    base = v * (1 + 0.5j) if dt.kind == 'c' else v * 0.5 - 1.0
+    if '*' in label:
+        base = base * float(label.split('*')[1])
+    elif label.endswith('+dc'):
+        base = base * 2.0**-10 + 2.0**30       # large DC offset, small variation (all values exact)
+    elif label.endswith('=0'):
+        base = base * 0.0
+    return base.astype(dt)
 
 
-def alt(L, dtype, amp=0.25):
-    v = amp * (1 - 2 * (np.arange(L) % 2))
-    if dtype == 'int':
-        return (4 * v).astype(int)      # +-1, sums to 0 or 1
-    if dtype == 'complex':
-        return v * (1 - 1j)
-    return v
+def alt(L, label):
+    dt = dt_of(label)
+    s = 1 - 2 * (np.arange(L) % 2)              # +1, -1, +1, ...: sums to 0 or 1
+    if dt.kind == 'b':
+        return s > 0
+    if dt.kind == 'u':
+        return (s > 0).astype(dt)               # 1, 0, 1, ...: representable, no wrap-around in the leaf itself
+    if dt.kind == 'i':
+        return s.astype(dt)
+    v = 0.25 * s * ((1 - 1j) if dt.kind == 'c' else 1.0)
+    if '*' in label:
+        v = v * float(label.split('*')[1])
+    elif label.endswith('+dc'):
+        v = v * 2.0**-10
+    return v.astype(dt)
 
 
 def leaf_arrays(cls, L, dtype, noise):
+    kind = dt_of(dtype).kind
     S = ramp(L, dtype)
-    N = alt(L, dtype) if noise else None
+    s = 1 - 2 * (np.arange(L) % 2)
+    if noise is False:
+        N = None
+    elif noise == 'xdt':      # noise of a different dtype than the signal (the constructor has to unify)
+        N = 0.25 * s if kind in 'biu' else (0.25 * s * (1 - 1j) if kind == 'f' else s.astype(int))
+    else:
+        N = alt(L, dtype)
     if cls == 'O2':
-        S = np.array([S, ramp(L, dtype, 3) * (-1)])
-        if noise:
-            N = np.array([N, -2 * N])
+        S = np.array([S, ramp(L, dtype, 3) if kind in 'bu' else ramp(L, dtype, 3) * (-1)])
+        if N is not None:
+            N2 = ~N if N.dtype.kind == 'b' else (1 - N if N.dtype.kind == 'u' else -2 * N)
+            N = np.array([N, N2 * 0 if noise == 'row0' else N2])
+    if noise == 'zero':
+        N = np.zeros_like(N)
     return S, N
 
 
@@ -82,7 +130,7 @@ def canon_obj(x):
 
 # ------------------------------------------------------------------ contract
 def contract(x, cls, L, tag):
-    """shape/noise contract of one object; returns list of violation tuples"""
+    """shape/noise contract of one object; returns list of violation tuples (L=None: any length >= 1)"""
     E, O = lib()
     v = []
     want = E if cls == 'E' else O
@@ -105,9 +153,19 @@ def contract(x, cls, L, tag):
         return v
     if x.noise is not None and (not isinstance(x.noise, np.ndarray) or x.noise.shape != s.shape):
         v.append((f'contract:noise-shape:{tag}', f'noise shape {getattr(x.noise, "shape", None)} signal shape {s.shape}'))
-    if x.len() != L or len(x) != L:
+    if L is not None and (x.len() != L or len(x) != L):
         v.append((f'contract:length:{tag}', f'len()={x.len()} expected {L}'))
     return v
+
+
+def contract_any(x, tag):
+    """contract of an object whose layout is not prescribed (constructor forms that may be accepted or rejected)"""
+    E, O = lib()
+    if type(x) is E:
+        return contract(x, 'E', None, tag)
+    if type(x) is O:
+        return contract(x, 'O2' if getattr(x, 'n_pol', None) == 2 or getattr(x.signal, 'ndim', 1) == 2 else 'O1', None, tag)
+    return [(f'contract:class:{tag}', f'constructor returned {type(x).__name__}')]
 
 
 def fresh(r, operands, tag):
@@ -124,22 +182,33 @@ def fresh(r, operands, tag):
     return v
 
 
+def state_of(o):
+    """complete observable state of an operand: arrays byte-for-byte, library objects with EVERY attribute
+    (signal, noise - None must stay None -, n_pol, execution_time, no attribute added), plain containers by repr"""
+    E, _ = lib()
+    if isinstance(o, np.ndarray):
+        return ('nd', o.shape, o.dtype.str, o.tobytes())
+    if isinstance(o, E):
+        return ('obj', type(o).__name__, tuple((k, state_of(v) if isinstance(v, np.ndarray) else repr(v))
+                                               for k, v in sorted(vars(o).items())))
+    return (type(o).__name__, repr(o))
+
+
 def snap(o):
-    out = []
     for a in (getattr(o, 'signal', o), getattr(o, 'noise', None)):
         if isinstance(a, np.ndarray):
             a.flags.writeable = False
-            out.append((a.shape, a.dtype.str, a.tobytes()))
-        else:
-            out.append(repr(a))
-    return out
+    return state_of(o)
 
 
 def same(o, s):
-    out = []
-    for a in (getattr(o, 'signal', o), getattr(o, 'noise', None)):
-        out.append((a.shape, a.dtype.str, a.tobytes()) if isinstance(a, np.ndarray) else repr(a))
-    return out == s
+    return state_of(o) == s
+
+
+def exact(a, b):
+    """the very same samples (NaN == NaN: deep programs on float16 may overflow legitimately)"""
+    a, b = np.asarray(a), np.asarray(b)
+    return a.shape == b.shape and bool(np.array_equal(a, b, equal_nan=a.dtype.kind in 'fc' and b.dtype.kind in 'fc'))
 
 
 def close(a, b):
@@ -150,71 +219,242 @@ def close(a, b):
     return bool(np.all(np.abs(a - b) <= 16 * EPS * scale))
 
 
+def total_field_ok(o, aS, aN, bS, bN, r):
+    """(signal+noise) of r == total(a) o total(b), evaluated in exact/wide arithmetic.
+
+    * integer model dtype and integer result: int64 arithmetic, compared modulo 2^bits of the dtype the array-pair
+      model has (np.result_type of the operands): wrap-around that plain numpy arrays of these dtypes have is accepted,
+      anything else (e.g. the negation of an unsigned operand before widening) is not;
+    * otherwise complex128 arithmetic; tolerance 8 * eps(model dtype) * (|aS|+|aN|+|bS|+|bN|): the implementation adds
+      signal to signal and noise to noise and the comparison adds the two results, each addition rounds by at most one
+      eps of its operands' magnitudes; samples whose magnitude bound exceeds the model dtype's range (float16 chains)
+      are not compared;
+    * boolean model dtype: `+` is a logical or and `-` is undefined in numpy - the statement is silent."""
+    parts = [np.asarray(p) for p in (aS, aN, bS, bN) if p is not None]
+    mdt = np.result_type(*parts)
+    if mdt.kind == 'b':
+        return True
+    rs, rn = r.signal, r.noise
+    shape = rs.shape
+    if mdt.kind in 'iu' and rs.dtype.kind in 'iu':
+        w = lambda a: 0 if a is None else np.asarray(a).astype(np.int64)
+        want = (w(aS) + w(aN)) + (w(bS) + w(bN)) * (1 if o == '+' else -1)
+        got = w(rs) + w(rn)
+        if np.broadcast_shapes(want.shape, shape) != shape:
+            return False
+        d = got - want
+        if mdt.itemsize < 8:
+            d = d % (1 << (8 * mdt.itemsize))
+        return bool(np.all(d == 0))
+    c = lambda a: 0 if a is None else np.asarray(a).astype(np.complex128)
+    want = (c(aS) + c(aN)) + (c(bS) + c(bN)) * (1 if o == '+' else -1)
+    got = c(rs) + c(rn)
+    if np.broadcast_shapes(np.shape(want), shape) != shape:
+        return False
+    mag = sum(np.abs(c(p)) for p in parts) + np.zeros(shape)
+    fdt = mdt if mdt.kind in 'fc' else np.dtype(float)
+    fi = np.finfo(fdt)
+    ok = mag <= fi.max / 4
+    err = np.abs(got - want)
+    return bool(np.all(err[ok] <= 8 * fi.eps * mag[ok]))
+
+
 # ------------------------------------------------------------------ operations
-SLICES = [('int0', 0), ('int-1', -1), ('1:', slice(1, None)), (':-1', slice(None, -1)), ('::2', slice(None, None, 2)),
-          ('::-1', slice(None, None, -1)), ('1:2', slice(1, 2)), (':', slice(None)), ('-2:', slice(-2, None)), ('1::3', slice(1, None, 3))]
+# slice forms: value or function of the length L.  Names of the core forms are kept from the first version.
+SLICES_CORE = [('int0', 0), ('int-1', -1), ('1:', slice(1, None)), (':-1', slice(None, -1)), ('::2', slice(None, None, 2)),
+               ('::-1', slice(None, None, -1)), ('1:2', slice(1, 2)), (':', slice(None)), ('-2:', slice(-2, None)),
+               ('1::3', slice(1, None, 3))]
+SLICES_X = [('int1', 1), ('intL-1', lambda L: L - 1), ('int-L', lambda L: -L),           # first / last legal index
+            ('intL', lambda L: L), ('int-L-1', lambda L: -L - 1),                        # one outside: no object may come back
+            (':1', slice(None, 1)), ('-1:', slice(-1, None)), ('L-1:', lambda L: slice(L - 1, None)),
+            ('::100', slice(None, None, 100)), ('2::-1', slice(2, None, -1)), ('-1::-2', slice(-1, None, -2)),
+            ('3:0:-1', slice(3, 0, -1)), (':0', slice(None, 0)), ('3:1', slice(3, 1)),   # the last two are empty
+            (':1000000', slice(None, 10**6)), ('-1000000:', slice(-10**6, None))]
+SLICES = SLICES_CORE + SLICES_X
 
-OPERAND_KINDS = ['obj', 'objn', 'obj1', 'obj1n', 'int', 'float', 'complex', 'list', 'tuple', 'ndarray', 'npfloat',
-                 'str-int', 'str-float', 'str-complex', 'str-bits']
-LEFT_KINDS = ['int', 'float', 'complex', 'list', 'tuple', 'str-int', 'str-float', 'str-bits', 'obj1', 'obj1n']
+OPERAND_CORE = ['obj', 'objn', 'obj1', 'obj1n', 'int', 'float', 'complex', 'list', 'tuple', 'ndarray', 'npfloat',
+                'str-int', 'str-float', 'str-complex', 'str-bits']
+LEFT_CORE = ['int', 'float', 'complex', 'list', 'tuple', 'str-int', 'str-float', 'str-bits', 'obj1', 'obj1n']
+OPERAND_X = [
+    'self',                                                             # the same object on both sides
+    'objz', 'obj1z',                                                    # all-zero noise IS noise
+    'obj@same', 'obj@samen', 'obj1@same', 'obj1@samen',                 # second object of the left operand's dtype
+    'obj@bool', 'obj@int8n', 'obj@uint8n', 'obj@int32', 'obj@float16n', 'obj@float32n', 'obj@complex64n',
+    'obj1@uint8n', 'obj1@float32',
+    'obj3', 'obj3n', 'list3', 'nd3',                                    # longer operand for a length-1 object (else n/a)
+    'bool', 'np@bool', 'np@int8', 'np@uint8', 'np@int64', 'np@float16', 'np@float32', 'np@complex64', 'np@complex128',
+    '0d@float', '0d@int', '0d@complex', '0d@uint8',
+    'nd@bool', 'nd@int8', 'nd@uint8', 'nd@int32', 'nd@int', 'nd@float16', 'nd@float32', 'nd@complex64', 'nd@complex',
+    'nd-strided', 'nd1', 'nd2', 'nd2x1',
+    'list-int', 'list-complex', 'list-bool', 'list-mixed', 'tuple-int', 'list1', 'list2',
+    'str-comma', 'str1', 'str2']
+LEFT_X = ['bool', 'str-complex', 'str-comma', 'str1', 'str2', 'list-int', 'list-complex', 'list-bool', 'list1', 'list2', 'list3',
+          'tuple-int', 'objz', 'obj1z', 'obj@same', 'obj1@samen', 'obj@uint8n', 'obj1@uint8n', 'obj@float32n', 'obj3n']
+ERR_CORE = ['obj+1', 'list-1']
+ERR_X = ['objn+1', 'list+1', 'nd-1', 'tuple+1', 'str+1', 'list-size', 'nd2+1', 'r:list-1', 'r:list+1', 'r:str+1']
+COPY_CORE = [None, 1, 2]
+COPY_X = ['L', 'L-1', 0]
+TF_CORE = [('tf', 'w'), ('tf', 't'), ('tfs', 'w')]
+TF_X = [('tf', 'f'), ('tfs', 't'), ('tfs', 'f')]
 
 
-def full_ops():
+def core_ops():
+    """the alphabet of the first version (used for prefixes); ('grow','list3') became ('bin','+','list3')"""
     ops = []
     for o in '+-*':
-        for k in OPERAND_KINDS:
-            ops.append(('bin', o, k))
-        for k in LEFT_KINDS:
-            ops.append(('rbin', o, k))
-        ops.append(('err', o, 'obj+1'))
-        ops.append(('err', o, 'list-1'))
-    for name, _ in SLICES:
-        ops.append(('slice', name))
-    ops += [('copy', None), ('copy', 1), ('copy', 2), ('tf', 'w'), ('tf', 't'), ('tfs', 'w'), ('grow', 'list3')]
+        ops += [('bin', o, k) for k in OPERAND_CORE]
+        ops += [('rbin', o, k) for k in LEFT_CORE]
+        ops += [('err', o, k) for k in ERR_CORE]
+    ops += [('slice', name) for name, _ in SLICES_CORE]
+    ops += [('copy', n) for n in COPY_CORE] + TF_CORE + [('bin', '+', 'list3')]
     return ops
 
 
-def deep_ops():
+def full_ops():
+    ops = core_ops()
+    for o in '+-*':
+        ops += [('bin', o, k) for k in OPERAND_X if not (k == 'list3' and o == '+')]
+        ops += [('rbin', o, k) for k in LEFT_X]
+        ops += [('err', o, k) for k in ERR_X]
+    ops += [('slice', name) for name, _ in SLICES_X]
+    ops += [('copy', n) for n in COPY_X] + TF_X
+    return ops
+
+
+def keep_ops():
+    """prefixes that keep the sample dtype of a narrow leaf"""
+    ops = [('slice', name) for name, _ in SLICES_CORE] + [('copy', None), ('copy', 1)]
+    ops += [('bin', o, k) for o in '+-*' for k in ('obj@same', 'obj@samen', 'obj1@samen', 'self')]
+    ops += [('rbin', '-', 'obj@same'), ('rbin', '-', 'obj1@samen')]
+    return ops
+
+
+def deep_ops(which='float'):
+    if which == 'same':     # stays in the dtype of the leaf
+        return [('bin', '+', 'obj@samen'), ('bin', '-', 'obj1@samen'), ('bin', '*', 'obj1@same'), ('rbin', '-', 'obj@same'),
+                ('bin', '-', 'self'), ('slice', '1:'), ('slice', '::2'), ('slice', '::-1'), ('slice', 'int-1'), ('copy', None)]
     return [('bin', '+', 'objn'), ('bin', '-', 'obj1n'), ('bin', '*', 'float'), ('rbin', '-', 'list'), ('bin', '+', 'obj'),
             ('rbin', '+', 'obj1n'), ('slice', '1:'), ('slice', '::2'), ('slice', '::-1'), ('copy', None)]
 
 
+OBJ_RE = re.compile(r'^obj(1|3)?(?:@([a-z0-9]+?))?([nz]?)$')
+NP_SCALARS = {'np@bool': np.True_, 'np@int8': np.int8(-2), 'np@uint8': np.uint8(3), 'np@int64': np.int64(3),
+              'np@float16': np.float16(1.5), 'np@float32': np.float32(1.5), 'np@complex64': np.complex64(1 - 2j),
+              'np@complex128': np.complex128(1 - 2j), 'npfloat': np.float64(1.5),
+              '0d@float': np.array(1.5), '0d@int': np.array(3), '0d@complex': np.array(0.5 + 1j), '0d@uint8': np.array(3, dtype=np.uint8)}
+PY_SCALARS = {'int': 2, 'float': 0.5, 'complex': (1 + 2j), 'bool': True}
+
+
+def vals(n, dt, noise=False):
+    """operand samples of numpy dtype dt (small values, exact in every dtype, no wrap-around inside the operand)"""
+    i = np.arange(n)
+    k = np.dtype(dt).kind
+    if k == 'b':
+        return (i % 2 == 1) if noise else (i % 2 == 0)
+    if k == 'u':
+        return ((i % 2) if noise else (i % 5) + 1).astype(dt)
+    if k == 'i':
+        return ((1 - 2 * (i % 2)) if noise else (i % 5) - 2).astype(dt)
+    if k == 'f':
+        return (0.125 * (1 - 2 * (i % 2)) if noise else i * 0.5 - 1.0).astype(dt)
+    return (0.125 * (1 - 2 * (i % 2)) * (1 + 1j) if noise else (i * 0.5 - 1.0) * (1 - 0.5j)).astype(dt)
+
+
+def rows2(a, noise=False):
+    k = a.dtype.kind
+    if k == 'b':
+        return np.array([a, ~a])
+    if k == 'u':
+        return np.array([a, 1 - a]) if noise else np.array([a, a[::-1] + np.ones(1, a.dtype)])
+    return np.array([a, 3 * a]) if noise else np.array([a, 3 - a])
+
+
 def operand(kind, m: M):
-    """returns (python operand to hand to the library, model arrays (S, N) of the operand, 1-D/2-D as it will be seen)"""
+    """returns (python operand to hand to the library, model arrays S, N of the operand) or None when the kind
+    does not apply to this left operand (2-row forms for a 1-pol object, longer operands for a length > 1)"""
     L = m.L
     two = m.cls == 'O2'
-    if kind in ('obj', 'objn'):
-        S = np.arange(L) * 0.5 - 1.0
-        N = (0.125 * (1 - 2 * (np.arange(L) % 2))) if kind == 'objn' else None
-        if two:
-            S = np.array([S, 3 - S])
-            N = None if N is None else np.array([N, 3 * N])
+    mo = OBJ_RE.match(kind)
+    if mo:
+        ln, dt, nz = mo.groups()
+        if ln == '3' and L != 1:
+            return None
+        n = {None: L, '1': 1, '3': 3}[ln]
+        if dt is None:       # the float64 operands of the first version
+            S = np.array([3.0]) if ln == '1' else np.arange(n) * 0.5 - 1.0
+            N = None if not nz else (np.array([0.25]) if ln == '1' else 0.125 * (1 - 2 * (np.arange(n) % 2)))
+            if two:
+                S = np.array([[3.0], [-1.5]]) if ln == '1' else np.array([S, 3 - S])
+                N = None if N is None else (np.array([[0.25], [-0.5]]) if ln == '1' else np.array([N, 3 * N]))
+        else:
+            dt = m.S.dtype if dt == 'same' else np.dtype(dt)
+            S = vals(n, dt) if ln != '1' else vals(4, dt)[3:]
+            N = None if not nz else (vals(n, dt, True) if ln != '1' else vals(1, dt, True))
+            if two:
+                S = rows2(S)
+                N = None if N is None else rows2(N, True)
+        if nz == 'z':
+            N = np.zeros_like(N)
         return build(m.cls, S, N), S, N
-    if kind in ('obj1', 'obj1n'):
-        S = np.array([3.0])
-        N = np.array([0.25]) if kind == 'obj1n' else None
-        if two:
-            S = np.array([[3.0], [-1.5]])
-            N = None if N is None else np.array([[0.25], [-0.5]])
-        return build(m.cls, S, N), S, N
-    if kind == 'int':
-        return 2, np.array([2]), None
-    if kind == 'float':
-        return 0.5, np.array([0.5]), None
-    if kind == 'complex':
-        return (1 + 2j), np.array([1 + 2j]), None
-    if kind == 'npfloat':
-        return np.float64(1.5), np.array([1.5]), None
-    vals = np.arange(L) * 0.25 + 2.0
+    if kind in PY_SCALARS:
+        return PY_SCALARS[kind], np.array([PY_SCALARS[kind]]), None
+    if kind in NP_SCALARS:
+        w = NP_SCALARS[kind]
+        w = w.copy() if isinstance(w, np.ndarray) else w
+        return w, np.array(w)[np.newaxis], None
+    v = np.arange(L) * 0.25 + 2.0
     if kind == 'list':
-        return [float(x) for x in vals], vals, None
+        return [float(x) for x in v], v, None
     if kind == 'tuple':
-        return tuple(float(x) for x in vals), vals, None
+        return tuple(float(x) for x in v), v, None
     if kind == 'ndarray':
-        return vals.copy(), vals, None
+        return v.copy(), v, None
+    if kind.startswith('nd@'):
+        a = vals(L, dt_of(kind[3:]))
+        return a.copy(), a, None
+    if kind == 'nd-strided':
+        base = np.arange(2 * L) * 0.25
+        return base[::2], base[::2].copy(), None
+    if kind in ('nd1', 'list1', 'str1'):
+        return {'nd1': np.array([2.5]), 'list1': [2.5], 'str1': '2.5'}[kind], np.array([2.5]), None
+    if kind in ('nd3', 'list3'):
+        if L != 1:
+            return None
+        a = np.array([1.0, 2.0, 4.0])
+        return (a.copy() if kind == 'nd3' else a.tolist()), a, None
+    if kind in ('nd2', 'list2', 'str2', 'nd2x1'):
+        if not two:
+            return None
+        if kind == 'nd2x1':
+            a = np.array([[2.0], [-1.0]])
+            return a.copy(), a, None
+        a = np.array([v, v[::-1] - 4.0])
+        if kind == 'nd2':
+            return a.copy(), a, None
+        if kind == 'list2':
+            return a.tolist(), a, None
+        return '; '.join(' '.join(repr(float(x)) for x in r) for r in a), a, None
+    if kind == 'list-int':
+        iv = (np.arange(L) % 5) - 2
+        return [int(x) for x in iv], iv, None
+    if kind == 'tuple-int':
+        iv = (np.arange(L) % 5) - 2
+        return tuple(int(x) for x in iv), iv, None
+    if kind == 'list-complex':
+        cv = (np.arange(L) * 0.5 - 1.0) * (1 - 0.5j)
+        return [complex(x) for x in cv], cv, None
+    if kind == 'list-bool':
+        bv = np.arange(L) % 2 == 0
+        return [bool(x) for x in bv], bv, None
+    if kind == 'list-mixed':
+        pool = [1, 2.5, 3j, True]
+        return [pool[i % 4] for i in range(L)], np.array([complex(pool[i % 4]) for i in range(L)]), None
     if kind == 'str-int':
         iv = (np.arange(L) % 7) + 2
         return ' '.join(str(int(x)) for x in iv), iv, None
+    if kind == 'str-comma':
+        iv = (np.arange(L) % 7) + 2
+        return ','.join(str(int(x)) for x in iv), iv, None
     if kind == 'str-float':
         fv = np.array([[1.5, -2.0, 0.25][i % 3] for i in range(L)])
         return ', '.join(repr(float(x)) for x in fv), fv, None
@@ -224,15 +464,61 @@ def operand(kind, m: M):
         return txt, cv, None
     if kind == 'str-bits':
         bv = np.array([[1, 0, 1, 1, 0][i % 5] for i in range(L)])
-        return ''.join(str(int(b)) for b in bv), bv, None
+        return ''.join(str(int(b)) for b in bv), bv == 1, None      # a bit pattern is read as a boolean array
     raise KeyError(kind)
+
+
+def err_operand(kind, m: M):
+    """an operand whose length differs from m.L, both >= 2 (None = not applicable); returns (operand, its length, reflected)"""
+    L = m.L
+    refl = kind.startswith('r:')
+    kind = kind[2:] if refl else kind
+    two = m.cls == 'O2'
+    if kind in ('list-size', 'nd2+1'):
+        if not two:
+            return None
+        if kind == 'nd2+1':
+            return np.ones((2, L + 1)), L + 1, refl
+        return [1.0] * (2 * L), 2 * L, refl       # as many elements as the 2-pol object has samples in total
+    n = L + 1 if kind.endswith('+1') else L - 1
+    if n < 2:
+        return None
+    base = kind[:-2]
+    if base in ('obj', 'objn'):
+        S = np.ones(n)
+        N = 0.5 * S if base == 'objn' else None
+        w = build(m.cls, np.array([S, S]) if two else S, None if N is None else (np.array([N, N]) if two else N))
+    else:
+        w = {'list': [1.0] * n, 'tuple': (1.0,) * n, 'nd': np.ones(n), 'str': ' '.join(['1.5'] * n)}[base]
+    return w, n, refl
 
 
 def arith(o, a, b):
     return a + b if o == '+' else a - b if o == '-' else a * b
 
 
+def pick(sl, L):
+    return sl(L) if callable(sl) else sl
+
+
 def apply_op(x, m: M, op):
+    with np.errstate(all='ignore'):
+        return _apply_op(x, m, op)
+
+
+def quiet(fn):
+    """case functions run with warnings off (ComplexWarning of lossy casts, overflow in float16 chains)"""
+    import functools
+
+    @functools.wraps(fn)
+    def g(case):
+        with warnings.catch_warnings():
+            warnings.simplefilter('ignore')
+            return fn(case)
+    return g
+
+
+def _apply_op(x, m: M, op):
     """execute `op` on the real object x (whose model is m).
     returns (result object or None, model or None, violations, tag)"""
     E, O = lib()
@@ -243,72 +529,76 @@ def apply_op(x, m: M, op):
     try:
         if kind in ('bin', 'rbin'):
             o = op[1]
-            w, wS, wN = operand(op[2], m)
-            sw = snap(w) if isinstance(w, (np.ndarray, E)) else None
-            if kind == 'bin':
-                r = x + w if o == '+' else x - w if o == '-' else x * w
-                aS, aN, bS, bN = m.S, m.N, wS, wN
+            if op[2] == 'self':
+                w, wS, wN = x, m.S, m.N
             else:
-                r = w + x if o == '+' else w - x if o == '-' else w * x
-                aS, aN, bS, bN = wS, wN, m.S, m.N
+                got = operand(op[2], m)
+                if got is None:
+                    return None, None, [], tag + ':n/a'
+                w, wS, wN = got
+            sw = snap(w)
+            boolish = m.S.dtype.kind == 'b' or np.asarray(wS).dtype.kind == 'b'
+            try:
+                if kind == 'bin':
+                    r = x + w if o == '+' else x - w if o == '-' else x * w
+                    aS, aN, bS, bN = m.S, m.N, wS, wN
+                else:
+                    r = w + x if o == '+' else w - x if o == '-' else w * x
+                    aS, aN, bS, bN = wS, wN, m.S, m.N
+            except TypeError as e:
+                # boolean samples are outside the quantifier (int/float/complex): numpy has no `-` for them
+                if boolish and 'numpy boolean' in str(e):
+                    if not (same(x, sx) and same(w, sw)):
+                        viol.append((f'operand-modified:{tag}', 'operand changed by a rejected operation'))
+                    return None, None, viol, tag + ':bool-algebra'
+                raise
             L = max(m.L, np.shape(wS)[-1])
             viol += contract(r, m.cls, L, tag)
             viol += fresh(r, [x, w], tag)
-            if sw is not None and not same(w, sw):
+            if not same(w, sw):
                 viol.append((f'operand-modified:{tag}', 'right/left operand changed'))
             if viol:
                 return None, None, viol, tag
             noisy = (aN is not None) or (bN is not None)
             if (r.noise is not None) != noisy:
                 viol.append((f'noise-iff:{tag}', f'result noise present={r.noise is not None}, operands noisy={noisy}'))
-            if o in '+-':
-                ta = aS if aN is None else aS + aN
-                tb = bS if bN is None else bS + bN
-                want = arith(o, ta, tb)
-                got = r.signal if r.noise is None else r.signal + r.noise
-                want = np.broadcast_to(want, got.shape) if np.broadcast_shapes(want.shape, got.shape) == got.shape else want
-                if not close(got, want):
-                    viol.append((f'total-field:{tag}', f'signal+noise of result != {"sum" if o == "+" else "difference"} of total fields'))
+            if o in '+-' and not total_field_ok(o, aS, aN, bS, bN, r):
+                uns = any(np.asarray(p).dtype.kind == 'u' for p in (aS, aN, bS, bN) if p is not None)
+                key = f'total-field:unsigned:{kind}:{o}' if uns else f'total-field:{tag}'
+                viol.append((key, f'signal+noise of result != {"sum" if o == "+" else "difference"} of total fields '
+                                  f'(dtypes {np.asarray(aS).dtype} {o} {np.asarray(bS).dtype})'))
             nm = M(m.cls, r.signal, r.noise)     # resynchronise (for * only the contract is stated)
         elif kind == 'err':
             o = op[1]
-            L = m.L
-            if L < 2:
+            got = err_operand(op[2], m) if m.L >= 2 else None
+            if got is None:
                 return None, None, [], tag + ':n/a'
-            if op[2] == 'obj+1':
-                S = np.ones(L + 1)
-                w = build(m.cls, np.array([S, S]) if m.cls == 'O2' else S, None)
-            else:
-                if L - 1 < 2:
-                    return None, None, [], tag + ':n/a'
-                w = [1.0] * (L - 1)
+            w, n, refl = got
+            sw = snap(w)
             try:
-                r = x + w if o == '+' else x - w if o == '-' else x * w
-                viol.append((f'length-mismatch-accepted:{tag}', f'operands of lengths {L} and {L+1 if op[2]=="obj+1" else L-1} did not raise ValueError'))
+                if refl:
+                    r = w + x if o == '+' else w - x if o == '-' else w * x
+                else:
+                    r = x + w if o == '+' else x - w if o == '-' else x * w
+                viol.append((f'length-mismatch-accepted:{tag}', f'operands of lengths {m.L} and {n} did not raise ValueError'))
             except ValueError:
                 pass
+            if not (same(x, sx) and same(w, sw)):
+                viol.append((f'operand-modified:{tag}', 'operand changed by a rejected operation'))
             return None, None, viol, tag
-        elif kind == 'grow':
-            # a length-1 object combined with a longer plain operand broadcasts to the longer length
-            if m.L != 1:
-                return None, None, [], tag + ':n/a'
-            w = [1.0, 2.0, 4.0]
-            r = x + w
-            viol += contract(r, m.cls, 3, tag)
-            viol += fresh(r, [x], tag)
-            if viol:
-                return None, None, viol, tag
-            got = r.signal if r.noise is None else r.signal + r.noise
-            if not close(got, m.total() + np.array(w)):
-                viol.append((f'total-field:{tag}', 'length-1 object + list: wrong total field'))
-            if (r.noise is not None) != (m.N is not None):
-                viol.append((f'noise-iff:{tag}', 'noise presence wrong'))
-            nm = M(m.cls, r.signal, r.noise)
         elif kind == 'slice':
-            sl = dict(SLICES)[op[1]]
+            sl = pick(dict(SLICES)[op[1]], m.L)
             if isinstance(sl, int):
-                wantS = m.S[..., sl:sl + 1] if sl >= 0 else m.S[..., m.L + sl:m.L + sl + 1]
-                wantN = None if m.N is None else (m.N[..., sl:sl + 1] if sl >= 0 else m.N[..., m.L + sl:m.L + sl + 1])
+                if not -m.L <= sl < m.L:
+                    # nothing is selected: whatever comes back cannot be "exactly the selected samples"
+                    try:
+                        r = x[sl]
+                    except (ValueError, IndexError):
+                        return None, None, [], tag + ':out-of-range'
+                    return None, None, [(f'slice-out-of-range-accepted:{tag}', f'index {sl} of a length-{m.L} object returned an object')], tag
+                k = sl % m.L
+                wantS = m.S[..., k:k + 1]
+                wantN = None if m.N is None else m.N[..., k:k + 1]
             else:
                 wantS = m.S[..., sl]
                 wantN = None if m.N is None else m.N[..., sl]
@@ -324,23 +614,30 @@ def apply_op(x, m: M, op):
             viol += fresh(r, [x], tag)
             if viol:
                 return None, None, viol, tag
-            if not (np.array_equal(r.signal, wantS) and r.signal.shape == wantS.shape):
+            if not exact(r.signal, wantS):
                 viol.append((f'slice-signal:{tag}', 'slice does not return exactly the selected signal samples'))
-            if (r.noise is None) != (wantN is None) or (wantN is not None and not np.array_equal(r.noise, wantN)):
+            if (r.noise is None) != (wantN is None) or (wantN is not None and not exact(r.noise, wantN)):
                 viol.append((f'slice-noise:{tag}', 'slice does not return exactly the selected noise samples'))
             nm = M(m.cls, wantS, wantN)
         elif kind == 'copy':
             n = op[1]
-            if n is not None and n > m.L:
+            n = m.L if n == 'L' else m.L - 1 if n == 'L-1' else n
+            if n is not None and (n > m.L or (n == 0 and op[1] != 0)):
                 return None, None, [], tag + ':n/a'
+            if n == 0:
+                try:
+                    r = x.copy(0)
+                except (ValueError, IndexError):
+                    return None, None, [], tag + ':empty'
+                return None, None, contract(r, m.cls, 0, tag), tag
             r = x.copy() if n is None else x.copy(n)
             k = m.L if n is None else n
             viol += contract(r, m.cls, k, tag)
             viol += fresh(r, [x], tag)
             if viol:
                 return None, None, viol, tag
-            if not np.array_equal(r.signal, m.S[..., :k]) or (m.N is None) != (r.noise is None) or \
-                    (m.N is not None and not np.array_equal(r.noise, m.N[..., :k])):
+            if not exact(r.signal, m.S[..., :k]) or (m.N is None) != (r.noise is None) or \
+                    (m.N is not None and not exact(r.noise, m.N[..., :k])):
                 viol.append((f'copy-values:{tag}', 'copy differs from the original samples'))
             nm = M(m.cls, m.S[..., :k], None if m.N is None else m.N[..., :k])
         elif kind in ('tf', 'tfs'):
@@ -360,7 +657,7 @@ def apply_op(x, m: M, op):
         if not fr:
             raise
         cls_in = m.cls
-        return None, None, [(f'raises:{type(e).__name__}:{tag}', f'{cls_in} len={m.L} noise={m.N is not None}: {type(e).__name__}: {str(e)[:150]}')], tag
+        return None, None, [(f'raises:{type(e).__name__}:{tag}', f'{cls_in} len={m.L} dtype={m.S.dtype} noise={m.N is not None}: {type(e).__name__}: {str(e)[:150]}')], tag
     if not same(x, sx):
         viol.append((f'operand-modified:{tag}', 'left operand changed'))
     return r, nm, viol, tag
@@ -368,10 +665,20 @@ def apply_op(x, m: M, op):
 
 # ------------------------------------------------------------------ case functions
 def leaf(spec):
+    """build the leaf; returns (object, model, violations of the constructor on this leaf)"""
     cls, L, dtype, noise = spec
     S, N = leaf_arrays(cls, L, dtype, noise)
+    sS, sN = snap(S), (None if N is None else snap(N))
     x = build(cls, S, N)
-    return x, M(cls, x.signal, x.noise)
+    v = contract(x, cls, L, 'leaf') + fresh(x, [S] + ([] if N is None else [N]), 'leaf')
+    if not v:
+        if not same(S, sS) or (N is not None and not same(N, sN)):
+            v.append(('operand-modified:leaf', 'constructor modified its argument'))
+        if (x.noise is None) != (N is None):
+            v.append(('leaf:noise-presence', f'noise given={N is not None} stored={x.noise is not None}'))
+        elif not exact(x.signal.astype(complex), S.astype(complex)) or (N is not None and not exact(x.noise.astype(complex), N.astype(complex))):
+            v.append(('leaf:values', 'stored samples differ from the given ones'))
+    return x, M(cls, x.signal, x.noise), [(k, f'leaf={spec}: {msg}') for k, msg in v]
 
 
 def h64(t):
@@ -379,39 +686,44 @@ def h64(t):
     return int.from_bytes(hashlib.blake2b(repr(t).encode(), digest_size=8).digest(), 'little')
 
 
+ALPHABETS = {'full': full_ops, 'core': core_ops}
+
+
+@quiet
 def wide(case):
-    """case = (leaf spec, prefix of op indices); applies the prefix, then EVERY op of the full alphabet"""
-    spec, prefix = case
-    ops = full_ops()
-    x, m = leaf(spec)
-    viol = []
-    for i in prefix:
-        x, m, v, tag = apply_op(x, m, ops[i])
+    """case = (leaf spec, prefix of ops[, final alphabet]); applies the prefix, then EVERY op of the final alphabet
+    to the one object the prefix produced (a sweep on one shared, write-protected input)"""
+    spec, prefix = case[0], case[1]
+    ops = ALPHABETS[case[2] if len(case) > 2 else 'full']()
+    x, m, viol = leaf(spec)
+    if any(k.startswith(('contract', 'alias')) for k, _ in viol):
+        return res(viol=viol, obs=('bad-leaf',))
+    for p in prefix:
+        x, m, v, tag = apply_op(x, m, tuple(p))
         if x is None:
             return res(viol=[], obs=('dead', tag))
     states = []
     obs = []
-    nt = 0
     for op in ops:
         r, nm, v, tag = apply_op(x, m, op)
         for k, msg in v:
-            viol.append((k, f'leaf={spec} prefix={[ops[i] for i in prefix]} op={op}: {msg}'))
+            viol.append((k, f'leaf={spec} prefix={[tuple(p) for p in prefix]} op={op}: {msg}'))
         if r is not None:
             c = canon_obj(r)
             states.append(h64(c))
             obs.append(h64(c))
         else:
             obs.append(tag)
-    return res(viol=viol, obs=tuple(obs), nontrivial=(spec[0] == 'O2' or spec[3] or spec[1] == 1),
+    return res(viol=viol, obs=tuple(obs), nontrivial=(spec[0] == 'O2' or bool(spec[3]) or spec[1] == 1),
                stats={'transitions': len(ops)}, payload=np.array(states, dtype=np.uint64))
 
 
+@quiet
 def deep(case):
-    """DFS of all programs of depth <= D over the reduced alphabet from one leaf"""
-    spec, D = case
-    ops = deep_ops()
-    x0, m0 = leaf(spec)
-    viol = []
+    """DFS of all programs of depth <= D over a reduced alphabet from one leaf"""
+    spec, D = case[0], case[1]
+    ops = deep_ops(case[2] if len(case) > 2 else 'float')
+    x0, m0, viol = leaf(spec)
     states = set()
     trans = 0
     maxd = 0
@@ -438,6 +750,22 @@ def deep(case):
     rec(x0, m0, 0, [])
     return res(viol=viol, obs=tuple(sorted(states)), nontrivial=True, stats={'transitions': trans, 'deep_max_depth': maxd},
                payload=np.array(sorted(states), dtype=np.uint64))
+
+
+def grid(case):
+    """nothing in the statement's scope reads the global grid: the same sweep after gv was configured differently
+    (integer and non-integer fs/R, another wavelength, N set) must give byte-identical results"""
+    from mcx.core.env import gv_reset
+    spec, kw = case
+    gv_reset()
+    ref = wide((spec, [], 'core'))
+    gv_reset(**dict(kw))
+    out = wide((spec, [], 'core'))
+    gv_reset()
+    viol = list(out['viol'])
+    if ref['obs'] != out['obs']:
+        viol.append(('grid-dependence', f'leaf={spec} gv({dict(kw)}): results differ from the default grid'))
+    return res(viol=viol, obs=out['obs'], nontrivial=('grid', kw))
 
 
 # ------------------------------------------------------------------ constructors
@@ -535,25 +863,183 @@ def ctor(case):
     return res(viol=viol, obs=canon_obj(x), nontrivial=('ctor', cls, rank, npol, nform is not None))
 
 
+ALL_DT = ('bool', 'int8', 'uint8', 'int16', 'int32', 'int64', 'float16', 'float32', 'float64', 'complex64', 'complex128')
+CTOR_KW = (None, 'float32', 'complex64', 'int16')
+
+
+def ctor_dt(case):
+    """ndarray arguments of every sample dtype: signal dtype x noise dtype (or none) x dtype= x class x rank.
+    Same-dtype pairs are the ones for which a lazy cast (`astype(copy=False)`, `asarray`) hands the caller's buffer on."""
+    E, O = lib()
+    cls, rank, sdt, ndt, kwdt = case
+
+    def arr(dt, noise):
+        a = np.array([1, 0, 1] if noise else [1, 2, 3])
+        k = np.dtype(dt).kind
+        a = (a == 1) if k == 'b' else a * (0.5 if k == 'f' else (0.5 - 0.25j) if k == 'c' else 1)
+        a = a.astype(dt)
+        return np.array(a[0]) if rank == '0d' else (np.array([a, a[::-1]]) if rank == '2xN' else a)
+
+    S = arr(sdt, False)
+    N = None if ndt is None else arr(ndt, True)
+    keep = [S] + ([] if N is None else [N])
+    snaps = [snap(a) for a in keep]
+    kw = {} if kwdt is None else {'dtype': np.dtype(kwdt) if kwdt != 'complex64' else 'complex64'}
+    with warnings.catch_warnings():
+        warnings.simplefilter('ignore')
+        try:
+            x = E(S, N, **kw) if cls == 'E' else O(S, N, **kw)
+        except (ValueError, TypeError) as e:
+            return res(obs=('rejected', type(e).__name__), stats={'ctor_rejected': 1})
+    want_cls = 'E' if cls == 'E' else ('O2' if rank == '2xN' else 'O1')
+    viol = contract(x, want_cls, 1 if rank == '0d' else 3, 'ctor-dt') + fresh(x, keep, 'ctor-dt')
+    for a, s in zip(keep, snaps):
+        if not same(a, s):
+            viol.append(('operand-modified:ctor-dt', 'constructor modified its argument'))
+    if (x.noise is not None) != (N is not None):
+        viol.append(('ctor:noise-presence', f'noise given={N is not None} stored={x.noise is not None}'))
+    if not viol:
+        if x.noise is not None and x.noise.dtype != x.signal.dtype:
+            viol.append(('ctor:dtype-unification', f'{x.signal.dtype} vs {x.noise.dtype}'))
+        common = np.result_type(*keep)
+        if kwdt is None or np.can_cast(common, np.dtype(kwdt), 'safe'):     # a lossy dtype= is the caller's choice
+            if not exact(x.signal.astype(complex), np.atleast_1d(S).astype(complex)) or \
+                    (N is not None and not exact(x.noise.astype(complex), np.atleast_1d(N).astype(complex))):
+                viol.append(('ctor:values', 'stored samples differ from the given ones'))
+    return res(viol=[(k, f'{case}: {m}') for k, m in viol], obs=canon_obj(x), nontrivial=('ctor-dt', cls, rank, sdt, ndt, kwdt))
+
+
+def forms():
+    """special spellings: label -> (class, args, kwargs, expectation) with expectation
+    ('ok', layout, signal, noise) | 'reject' (no object may come back) | 'either' (rejected, or an object that keeps the contract)"""
+    E, O = lib()
+    from opticomlib.typing import binary_sequence
+    e3 = E([1.0, 2.0, 3.0])
+    A = np.array
+    return {
+        'str-comma': ('E', ('1,2,3',), {}, ('ok', 'E', A([1, 2, 3]), None)),
+        'str-comma-space': ('E', ('1, 2  3',), {}, ('ok', 'E', A([1, 2, 3]), None)),
+        'str-whitespace': ('E', ('1\t2\n3',), {}, 'either'),
+        'str-complex-ij': ('E', ('1+2i 3-4j',), {}, ('ok', 'E', A([1 + 2j, 3 - 4j]), None)),
+        'str-bits': ('E', ('1011',), {}, ('ok', 'E', A([1, 0, 1, 1]), None)),
+        'str-bits-noise': ('O', ('1011', '0.5 0 0 0.25'), {}, ('ok', 'O1', A([1, 0, 1, 1]), A([0.5, 0, 0, 0.25]))),
+        'str-rows': ('O', ('1 2; 3 4',), {}, ('ok', 'O2', A([[1, 2], [3, 4]]), None)),
+        'str-rows-noise': ('O', ('1.5 2;3 4', '0.5 0; 0 0.25'), {}, ('ok', 'O2', A([[1.5, 2], [3, 4]]), A([[0.5, 0], [0, 0.25]]))),
+        'str-bit-rows': ('O', ('10;01',), {}, ('ok', 'O2', A([[1, 0], [0, 1]]), None)),
+        'str-rows-E': ('E', ('1 2; 3 4',), {}, 'reject'),
+        'str-npol2': ('O', ('1 2 3',), {'n_pol': 2}, ('ok', 'O2', A([[1, 2, 3], [1, 2, 3]]), None)),
+        'str-rows-npol1': ('O', ('1 2; 3 4',), {'n_pol': 1}, ('ok', 'O1', A([1, 2]), None)),
+        'str-empty': ('E', ('',), {}, 'reject'),
+        'str-blank': ('E', (' ',), {}, 'reject'),
+        'py-int': ('E', (2,), {}, ('ok', 'E', A([2]), None)),
+        'py-bool': ('E', (True,), {}, ('ok', 'E', A([1]), None)),
+        'py-complex-noise-int': ('E', (1 + 2j, 3), {}, ('ok', 'E', A([1 + 2j]), A([3]))),
+        'py-float-O': ('O', (2.5, 0.5), {}, ('ok', 'O1', A([2.5]), A([0.5]))),
+        'py-float-O-npol2': ('O', (2.5,), {'n_pol': 2}, ('ok', 'O2', A([[2.5], [2.5]]), None)),
+        'py-float-noise-O-npol2': ('O', (2.5, 0.5), {'n_pol': 2}, 'either'),
+        'np-float32': ('E', (np.float32(2), np.float32(1)), {}, ('ok', 'E', A([2]), A([1]))),
+        'np-int8': ('E', (np.int8(-3),), {}, ('ok', 'E', A([-3]), None)),
+        'np-int8-npol2': ('O', (np.int8(-3),), {'n_pol': 2}, ('ok', 'O2', A([[-3], [-3]]), None)),
+        'np-complex64-float16': ('E', (np.complex64(1 + 1j), np.float16(0.5)), {}, ('ok', 'E', A([1 + 1j]), A([0.5]))),
+        'np-0d': ('E', (np.array(2), np.array(1)), {}, ('ok', 'E', A([2]), A([1]))),
+        'list-np-scalars': ('E', ([np.float32(1), np.int8(2)],), {}, ('ok', 'E', A([1, 2]), None)),
+        'range': ('E', (range(3),), {}, ('ok', 'E', A([0, 1, 2]), None)),
+        'kw-float32': ('E', ([1, 2], [1, 2]), {'dtype': np.float32}, ('ok', 'E', A([1, 2]), A([1, 2]))),
+        'kw-str-complex64': ('O', ([[1, 2], [3, 4]],), {'dtype': 'complex64'}, ('ok', 'O2', A([[1, 2], [3, 4]]), None)),
+        'empty-E': ('E', ([],), {}, 'reject'),
+        'empty-O': ('O', ([],), {}, 'reject'),
+        'empty-rows-O': ('O', ([[], []],), {}, 'reject'),
+        'empty-noise': ('E', ([], []), {}, 'reject'),
+        'ragged-E': ('E', ([[1, 2], [3]],), {}, 'reject'),
+        'ragged-O': ('O', ([[1, 2], [3]],), {}, 'reject'),
+        '3d-O': ('O', (np.ones((2, 2, 2)),), {}, 'reject'),
+        '3rows-O': ('O', (np.ones((3, 2)),), {}, 'reject'),
+        '3rows-npol1-O': ('O', (np.ones((3, 2)),), {'n_pol': 1}, 'reject'),
+        'noise-shorter': ('O', ([1, 2], [1]), {}, 'reject'),
+        'noise-longer': ('E', ([1, 2], [1, 2, 3]), {}, 'reject'),
+        'noise-1d-signal-2d': ('O', ([[1, 2], [3, 4]], [1, 2]), {}, 'either'),
+        'noise-2d-signal-1d': ('O', ([1, 2], [[.1, .2], [.3, .4]]), {}, 'either'),
+        'noise-scalar-signal-1d': ('E', ([1, 2, 3], 0.5), {}, 'either'),
+        'noise-2d-E': ('E', ([1, 2], [[1, 2], [3, 4]]), {}, 'reject'),
+        'own-E': ('E', (e3,), {}, 'either'),
+        'own-E-in-O': ('O', (e3,), {}, 'either'),
+        'own-binary_sequence': ('E', (binary_sequence('1011'),), {}, 'either'),
+    }
+
+
+def ctor_form(label):
+    E, O = lib()
+    cls, args, kw, exp = forms()[label]
+    keep = [a for a in args if isinstance(a, (np.ndarray, E))]
+    snaps = [snap(a) for a in keep]
+    with warnings.catch_warnings():
+        warnings.simplefilter('ignore')
+        try:
+            x = (E if cls == 'E' else O)(*args, **kw)
+        except Exception as e:
+            if isinstance(exp, tuple):
+                return res(viol=[(f'ctor-form:rejected:{label}', f'{type(e).__name__}: {str(e)[:120]}')], obs=('raised', type(e).__name__))
+            return res(obs=('raised', type(e).__name__), nontrivial=('ctor-form', label))
+    if exp == 'reject':
+        return res(viol=[(f'ctor-form:accepted-invalid:{label}', f'returned signal shape {getattr(x.signal, "shape", None)}')], obs='accepted')
+    if exp == 'either':
+        viol = contract_any(x, f'ctor-form:{label}')
+    else:
+        _, lay, S, N = exp
+        viol = contract(x, lay, S.shape[-1], f'ctor-form:{label}')
+        if not viol:
+            if (x.noise is None) != (N is None):
+                viol.append((f'ctor:noise-presence:{label}', f'noise given={N is not None} stored={x.noise is not None}'))
+            elif not exact(x.signal.astype(complex), S.astype(complex)) or (N is not None and not exact(x.noise.astype(complex), N.astype(complex))):
+                viol.append((f'ctor:values:{label}', f'stored {x.signal.tolist()} / {None if x.noise is None else x.noise.tolist()}'))
+    viol += fresh(x, keep, f'ctor-form:{label}')
+    for a, s in zip(keep, snaps):
+        if not same(a, s):
+            viol.append((f'operand-modified:ctor-form:{label}', 'constructor modified its argument'))
+    return res(viol=viol, obs=canon_obj(x) if isinstance(getattr(x, 'signal', None), np.ndarray) else 'odd', nontrivial=('ctor-form', label))
+
+
 # ------------------------------------------------------------------ driver
 REGRESS_WIDE = [
     (('E', 3, 'float', False), []),      # noise-free x + noisy length-1 y (DESIGN 8 #1), length-1 object on the left (#2)
     (('O2', 2, 'complex', False), []),
     (('E', 1, 'float', True), []),
 ]
+GRIDS = [(('sps', 8), ('R', 1e9)), (('sps', 16), ('fs', 33.3e9), ('wavelength', 1310e-9)), (('R', 3e9), ('fs', 10e9), ('N', 7))]
 
 
 def run(ctx):
     ops = full_ops()
-    leaves = [(c, L, d, n) for c in CLS for L in LENGTHS for d in DTYPES for n in (False, True)]
+    core = core_ops()
+    keep = keep_ops()
+    base = [(c, L, d, n) for c in CLS for L in LENGTHS for d in DTYPES for n in (False, True)]
+    narrow = [(c, L, d, n) for c in CLS for L in LENGTHS for d in NARROW_DT for n in (False, True)]
+    seeded = (f'float~{ctx.seed}', f'complex~{ctx.seed}')
+    scaled = [(c, L, d, n) for c in CLS for L in (1, 3, 64) for d in SCALED_DT + seeded for n in (False, True)]
+    noisex = [(c, L, d, n) for c in CLS for L in (1, 2, 5) for d in DTYPES + ('uint8', 'float32') for n in NOISE_X
+              if not (n == 'row0' and c != 'O2')]
+    longer = [(c, L, d, True) for c in CLS for L in LENGTHS_X for d in ('float', 'uint8', 'complex64')]
+    extra = narrow + scaled + noisex + longer
+    leaves = base + extra
     ctx.space('leaves', len(leaves))
+    ctx.space('leaves.base', len(base))
     ctx.space('ops.full', len(ops))
+    ctx.space('ops.core', len(core))
     ctx.space('ops.deep', len(deep_ops()))
     ctx.rule('explicit-state search over operator programs on the real objects in lock-step with an (S,N) array-pair model: '
-             'wide-shallow = every program of depth <= D_w over the full alphabet (3 binary operators x 15 right-operand kinds '
-             '+ 10 reflected kinds + length-mismatch operands, 10 slice forms, copy()/copy(n), transforms) from every leaf '
-             '(3 layouts x 6 lengths x 3 dtypes x noise absent/present); narrow-deep = every program of depth <= D_d over a '
-             '10-op alphabet; constructor forms enumerated as a full product')
+             'wide-shallow = every op of the full alphabet (3 binary operators x (15+56 right-operand kinds: second objects of '
+             'the same length / length 1 / the same dtype / narrow dtypes / all-zero noise / the object itself, Python and numpy '
+             'scalars, 0-d arrays, ndarrays of 10 dtypes, strided and 2-row arrays, lists, tuples, strings) + 30 reflected kinds '
+             '+ 12 length-mismatch operands, 26 slice forms incl. first/last legal and first illegal index, copy()/copy(n), '
+             '6 transforms) applied to one shared write-protected object after every prefix of depth <= D_w-1 over the core '
+             'alphabet from every base leaf (3 layouts x 6 lengths x int64/float64/complex128 x noise absent/present), and '
+             'after every dtype-preserving prefix from the extra leaves (8 narrow dtypes incl. bool/unsigned, 6 scale/offset '
+             'variants, 2 seeded random fields, noise all-zero / of another dtype / in one row only, lengths 13 and 127); '
+             'narrow-deep = every program of depth <= D_d over two 10-op alphabets (float64 operands; operands of the '
+             'leaf\'s own dtype); constructor forms enumerated as full products (containers x noise forms x dtype= x n_pol x '
+             'rank; ndarray dtype x noise dtype x dtype=) plus a list of special spellings and invalid forms')
+    ctx.assume('boolean samples are outside the quantified dtypes: where numpy itself has no operation for them '
+               '(boolean `-`) a TypeError is accepted, and the total-field clause is not asserted on all-boolean operands')
     for c in REGRESS_WIDE:
         ctx.run_case('regress', wide, c)
 
@@ -566,26 +1052,39 @@ def run(ctx):
                 for npol in ([None] if cls == 'E' else [None, 1, 2]):
                     cc.append(('E' if cls == 'E' else 'O', form, nform, dt, npol, rank))
     ctx.pmap('ctor', ctor, cc)
+    cd = [(cls, rank, s, n, kw) for cls in ('E', 'O') for rank in (('0d', '1d') if cls == 'E' else ('0d', '1d', '2xN'))
+          for s in ALL_DT for n in (None,) + ALL_DT for kw in CTOR_KW]
+    ctx.pmap('ctor-dt', ctor_dt, cd)
+    ctx.pmap('ctor-form', ctor_form, sorted(forms()))
+    ctx.pmap('grid', grid, [(c[0], g) for c in REGRESS_WIDE for g in GRIDS])
 
     Dw = 2 if ctx.quick else 3
     allstates = []
     trans = 0
-    # depth 1 and 2 from every leaf
-    cases = [(lf, []) for lf in leaves] + [(lf, [i]) for lf in leaves for i in range(len(ops))]
+    # depth 1: the full alphabet on every leaf.  depth 2 from the base leaves: core prefix + core op (quick), plus
+    # core prefix + full alphabet and new-op prefix + core op (thorough); dtype-preserving prefix + full alphabet from
+    # the extra leaves (quick: the noisy length-3 leaves of the narrow dtypes)
+    cases = [(lf, []) for lf in leaves]
+    cases += [(lf, [p], 'core') for lf in base for p in core]
+    x2 = [lf for lf in narrow if lf[1] == 3 and lf[3]] if ctx.quick else extra
+    cases += [(lf, [p]) for lf in x2 for p in keep]
+    if not ctx.quick:
+        cases += [(lf, [p]) for lf in base for p in core]
+        cases += [(lf, [p], 'core') for lf in base for p in ops[len(core):]]
     if Dw == 3:
-        l3 = [lf for lf in leaves if lf[1] in (1, 3, 64) and lf[2] != 'int']
-        cases += [(lf, [i, j]) for lf in l3 for i in range(len(ops)) for j in range(len(ops))]
-    pl = ctx.pmap('wide', wide, cases, horizon=60)
+        l3 = [lf for lf in base if lf[1] in (1, 3, 64) and lf[2] != 'int']
+        cases += [(lf, [p, q], 'core') for lf in l3 for p in core for q in core]
+    pl = ctx.pmap('wide', wide, cases, horizon=120)
     allstates += [p for p in pl if p is not None]
     Dd = 4 if ctx.quick else 6
-    dleaves = leaves if ctx.quick else [lf for lf in leaves if lf[1] in (1, 2, 5) and lf[2] in ('float', 'complex')]
-    pl = ctx.pmap('deep', deep, [(lf, Dd) for lf in dleaves], horizon=900, chunk=1, recheck=1)
+    dleaves = base if ctx.quick else [lf for lf in base if lf[1] in (1, 2, 5) and lf[2] in ('float', 'complex')]
+    sleaves = [lf for lf in narrow if lf[1] in ((2, 5) if ctx.quick else (1, 2, 5)) and (lf[3] or not ctx.quick)]
+    dcases = [(lf, Dd) for lf in dleaves] + [(lf, 4 if ctx.quick else 5, 'same') for lf in sleaves]
+    pl = ctx.pmap('deep', deep, dcases, horizon=900, chunk=1, recheck=1)
     allstates += [p for p in pl if p is not None]
     st = np.unique(np.concatenate(allstates)) if allstates else np.array([])
     trans = ctx.stats.get('transitions', 0)
     ctx.graph(states=int(st.size) + len(leaves), transitions=int(trans))
-    ctx.extra['bounds'] = {'wide_depth': Dw, 'deep_depth': Dd, 'leaves': len(leaves), 'deep_leaves': len(dleaves)}
-    for s in st[:200000:1]:
-        pass
+    ctx.extra['bounds'] = {'wide_depth': Dw, 'deep_depth': Dd, 'leaves': len(leaves), 'deep_leaves': len(dcases)}
     # distinct non-trivial = distinct canonical states reached (beyond the per-case tags)
     ctx.nt_tags.update(('state', int(s)) for s in st[:50000])
